@@ -36,6 +36,14 @@ def run_case(cs):
     for n in rng.sample(["a.tmp", "b.bak", "Thumbs.db", "ax.dat", "qfile", "skipme", ".DS_Store"], rng.randint(0, 3)):
         par = rng.choice(dirs)
         tree[(par + "/" if par else "") + n] = world.gen_bytes(rng)
+    huge = cs.seed_str.endswith(":0") or (cs.tier == "thorough" and rng.random() < 0.0005)
+    if huge:
+        for i in range(4100 + rng.randint(0, 200)):
+            tree["huge/%02d/%05d.dat" % (i % 37, i)] = bytes([i % 256])
+        for j in range(37):
+            tree["huge/%02d" % j] = None
+        tree["huge"] = None
+        cs.count("huge_trees_over_4096_records")
     big = rng.random() < 0.03
     if big:
         # a manifest of well over 32 KiB (long names, many records)
@@ -64,6 +72,9 @@ def run_case(cs):
                         with open(os.path.join(root, rel), "wb") as f:
                             f.write(data)
     prior = rng.choice([0, 0, 1, 2, 3])
+    if huge:
+        # the record lookup is linear per file: several generations of >4000 records take minutes, which is slow, not hung
+        prior = 0
     child_first = rng.random() < 0.5
     steps = []
     # nested histories come into being by sealing the sub folder on its own
